@@ -1,12 +1,15 @@
 # tier budgets (sourced by bin/check): runs and wall-clock budget of the exploration phase
-runs_quick=1500; budget_quick=40s
-runs_thorough=80000; budget_thorough=20m
+runs_quick=3000; budget_quick=55s
+runs_thorough=120000; budget_thorough=25m
 case "$ID" in
- C05) runs_quick=3000 ;;
- C07|C08) runs_quick=1200; budget_quick=50s ;;
- C13|C14) runs_quick=800; budget_quick=50s ;;
- C15|C16) runs_quick=1500; budget_quick=45s ;;
- C17|C19) runs_quick=2000 ;;
- C18) runs_quick=320; budget_quick=60s; runs_thorough=12000 ;;
- C20) runs_quick=64; runs_thorough=2000 ;;
+ C04) runs_quick=4000 ;;
+ C05) runs_quick=6000 ;;
+ C07|C08) runs_quick=1800; budget_quick=60s ;;
+ C11|C12) runs_quick=2500 ;;
+ C13|C14) runs_quick=1300; budget_quick=60s ;;
+ C16) runs_quick=2200; budget_quick=60s ;;
+ C17) runs_quick=40000; runs_thorough=2000000 ;;
+ C19) runs_quick=20000; runs_thorough=1000000 ;;
+ C18) runs_quick=600; budget_quick=60s; runs_thorough=20000 ;;
+ C20) runs_quick=192; runs_thorough=4000 ;;
 esac
